@@ -55,14 +55,18 @@ func (r *Runner) envTx(msg sdk.Msg) (abci.ResponseDeliverTx, error) {
 }
 
 // GovExec handles a GOVEXEC line inside the open block.
-func (r *Runner) GovExec(n int, m script.Msg) error {
-	msg, err := r.BuildMsg(m)
-	if err != nil {
-		return err
+func (r *Runner) GovExec(n int, ms []script.Msg) error {
+	var msgs []sdk.Msg
+	for _, m := range ms {
+		msg, err := r.BuildMsg(m)
+		if err != nil {
+			return err
+		}
+		msgs = append(msgs, msg)
 	}
 	item := govItem{n: n}
 	defer func() { r.gov = append(r.gov, item) }()
-	submit, err := govv1.NewMsgSubmitProposal([]sdk.Msg{msg}, sdk.NewCoins(sdk.NewInt64Coin(BondDenom, 1)), r.ValAddr.String(), "", "verif", "verif")
+	submit, err := govv1.NewMsgSubmitProposal(msgs, sdk.NewCoins(sdk.NewInt64Coin(BondDenom, 1)), r.ValAddr.String(), "", "verif", "verif")
 	if err != nil {
 		return err
 	}
